@@ -197,6 +197,8 @@ impl<R: RTraits> TileManager<R> {
             .tile_by_id
             .into_iter()
             .collect::<Vec<(u64, TileManagerTile)>>();
+        #[cfg(feature = "verif")]
+        crate::verif::scramble(&mut id_tile);
         id_tile.sort_by(|a, b| a.0.cmp(&b.0));
 
         let mut entries = Vec::<Entry>::new();
@@ -251,6 +253,26 @@ impl<R: RTraits> TileManager<R> {
             num_tile_content,
             num_tile_entries,
         })
+    }
+}
+
+#[cfg(feature = "verif")]
+impl<R> TileManager<R> {
+    /// Read-only view of the sizes of the internal maps (verification hook H1).
+    pub fn verif_store_stats(&self) -> crate::verif::StoreStats {
+        crate::verif::StoreStats {
+            ids: self.tile_by_id.len(),
+            memory_backed_ids: self
+                .tile_by_id
+                .values()
+                .filter(|t| matches!(t, TileManagerTile::Hash(_)))
+                .count(),
+            stored_contents: self.data_by_hash.len(),
+            retained_bytes: self.data_by_hash.values().map(Vec::len).sum(),
+            reference_sets: self.ids_by_hash.len(),
+            references: self.ids_by_hash.values().map(HashSet::len).sum(),
+            empty_reference_sets: self.ids_by_hash.values().filter(|s| s.is_empty()).count(),
+        }
     }
 }
 
